@@ -1,4 +1,4 @@
-CONSTANTS Universe <- UnivSmall MaxKeys = 3 Mods = {0, 1, 3} Depth = 3 Alphabet = "table" Kinds = {"table"}
+CONSTANTS Universe <- UnivSmall MaxKeys = 3 Mods = {0, 1, 3} Depth = 3 Alphabet = "table" Kinds = {"table", "set"}
 SPECIFICATION Spec
 INVARIANT HashRefines
 INVARIANT MemberLemma
